@@ -3,7 +3,7 @@
    Codes 10..19, 100+: the observed outputs violate the specification the theorems of Props/C16.v state
    (computed from the observations only, not from the tracker / splitter model). *)
 From Coq Require Import List NArith Bool.
-From RV Require Import Model.SplitTracker Model.Splitters Model.RunnerLoop.
+From RV Require Import Model.SplitTracker Model.Splitters Model.RunnerLoop Model.HttpReader.
 Import ListNotations.
 Open Scope N_scope.
 
@@ -48,6 +48,12 @@ Inductive kev :=
 | KFinish (ids : list N) (o : list (N * N * N))
 | KCkpt (o_assigned : list shard) (o_last : N).
 
+(* real httpapi reader against a bounded topic *)
+Inductive hop :=
+| HRead (o : list N) (o_eoi : bool)     (* records returned by ReadEvents (topic positions), ErrEndOfInput? *)
+| HCkpt (o_cursor : N)                  (* Checkpoint() *)
+| HRestore.                             (* a new reader, assigned the split with the last checkpointed cursor *)
+
 Inductive case :=
 | CRunner (steps : list step) (o_reports : list (N * list (N * N))) (o_streams : list (list ev)) (complete : bool)
           (o_acked : list (N * N))   (* splits of the assignment rounds HandleAssignSplits acknowledged *)
@@ -55,7 +61,8 @@ Inductive case :=
 | CKinesis (n : N) (evs : list kev)
 | CEmbedded (splits runners : N) (o : list (list N))
 | CEmbeddedRestore (splits runners : N) (panicked : bool) (states : list (N * N)) (o : list (list N)) (o_cur : list (N * option N))
-| CHttp (runners : N) (states : list (list N)) (o : list (N * list N)).
+| CHttp (runners : N) (states : list (list N)) (o : list (N * list N))
+| CHttpRead (n b : N) (ops : list hop).
 
 (* ================= runner: positions match the cut ================= *)
 
@@ -232,7 +239,9 @@ Definition ks_live (k : kspec) : list N :=
 Definition kspec_step (n : N) (k : kspec) (x : kev) : kspec * list N :=
   match x with
   | KAppend sh => (mkKS (ks_stream k ++ sh) (ks_fin k) (ks_epoch k) (ks_lost k) (ks_states k) (ks_saved k), [])
-  | KCkpt _ _ => (mkKS (ks_stream k) (ks_fin k) (ks_epoch k) (ks_lost k) (ks_states k) (ks_fin k, ks_lost k), [])
+  | KCkpt oa _ => (mkKS (ks_stream k) (ks_fin k) (ks_epoch k) (ks_lost k) (ks_states k) (ks_fin k, ks_lost k),
+                   (* the published splitter state lists exactly the shards that have a reader now *)
+                   flag (same_set N.eqb (map sid oa) (filter (fun i => negb (mem i (ks_fin k))) (ks_epoch k))) 107)
   | KFinish ids o =>
       ks_assigns n (mkKS (ks_stream k) (ids ++ ks_fin k) (ks_epoch k) (ks_lost k) (ks_states k) (ks_saved k)) o
   | KTick o => let '(k', c) := ks_assigns n k o in (k', c ++ ks_live k')
@@ -272,6 +281,29 @@ Definition exactly_one_group (splits : N) (o : list (list N)) : bool :=
   forallb (fun i => count (N.eqb i) (concat o) =? 1) (iota_from 0 (N.to_nat splits))
   && (N.of_nat (length (concat o)) =? splits).
 
+(* ================= httpapi reader ================= *)
+
+(* state: model reader, last checkpointed cursor (model), spec position = start cursor + records emitted,
+   last checkpointed cursor (observed) *)
+Fixpoint check_httpread (n b : N) (ops : list hop) (r : hreader) (ck : N) (pos : N) (ock : N) : list N :=
+  match ops with
+  | [] => []
+  | HRead o o_eoi :: rest =>
+      let '(r', evs, eoi) := h_read n b r in
+      flag (list_eqb N.eqb evs o && Bool.eqb eoi o_eoi) 50 ++
+      (* the records emitted are the next consecutive records of the topic, inside the topic *)
+      flag (list_eqb N.eqb o (h_range pos (length o)) && (pos + N.of_nat (length o) <=? n)) 18 ++
+      (* end of input only when everything has been emitted *)
+      flag (negb o_eoi || (pos + N.of_nat (length o) =? n)) 18 ++
+      check_httpread n b rest r' ck (pos + N.of_nat (length o)) ock
+  | HCkpt oc :: rest =>
+      flag (h_checkpoint r =? oc) 51 ++
+      (* the checkpointed position stands exactly behind the records emitted so far *)
+      flag (oc =? pos) 17 ++
+      check_httpread n b rest r (h_checkpoint r) pos oc
+  | HRestore :: rest => check_httpread n b rest (h_assign ck) ck ock ock
+  end.
+
 Definition check_case (c : case) : list N :=
   match c with
   | CRunner steps o_reports o_streams complete o_acked => check_runner steps o_reports o_streams complete o_acked
@@ -290,6 +322,7 @@ Definition check_case (c : case) : list N :=
          flag (list_eqb N.eqb (map fst o_cur) (concat o)
                && forallb (fun sc => match snd sc, embedded_cursor states (fst sc) with
                                      | Some a, Some b => a =? b | None, None => true | _, _ => false end) o_cur) 123)
+  | CHttpRead n b ops => check_httpread n b ops (h_assign 0) 0 0 0
   | CHttp runners states o =>
       flag (list_eqb (fun a b => (fst a =? fst b) && list_eqb N.eqb (snd a) (snd b))
                      (httpapi_assign (N.to_nat runners) states) o) 41 ++
